@@ -61,6 +61,9 @@ def module_for(seed, i, alt_syms=False):
     if i < len(shipped):
         return shipped[i][0], shipped[i][1]()
     rng = random.Random(seed * 7919 + i)
+    if i % 3 == 2 and not alt_syms:
+        # nested, symbol-bearing axioms under a repeatedly used super-pattern: the memoisation analysis has to rank them
+        return f'nested{i}', mw.nested_axioms_module(rng).mod
     # 'other' modules of a history use partly different symbol names, in another order
     b = mw.random_module(rng, syms=('g', 'q', 'b', 'zz', 'a')) if alt_syms else mw.random_module(rng)
     return f'gen{i}', b.mod
@@ -88,6 +91,12 @@ def main():
             else:
                 _, B = module_for(seed, ib, alt_syms=True)
                 ser_all(B, scratch, 'm')
+                # ... and a module that shows the very same patterns as A but registers no notation at all (whatever is remembered
+                # about a pattern from that run must not be reused when A prints it with its own notations)
+                from pi2v import repo
+                _, A0 = module_for(seed, ia)
+                plain = repo.mod('proof').ProofExp(axioms=list(dict.fromkeys(list(A0.get_claims()) + list(A0.get_axioms()))))
+                ser_all(plain, scratch, 'm')
                 _, A = module_for(seed, ia)
                 res = {'B,A': ser_all(A, scratch, 'm'), 'A,A': ser_all(A, scratch, 'm')}
                 ser_all(B, scratch, 'm')
